@@ -297,21 +297,53 @@ func cmdHist(args []string) {
 	defer w.Flush()
 	n := 0
 	for pi, p := range pool {
+		// contexts that TELL: group the nodes of every document by what a fresh evaluation observes there; half of the
+		// sessions take both slots from the document with the most different observations, from different groups
+		// (state that leaks from one evaluation into the next only shows when the two answers differ)
+		ptext := xast.Print(p.e, xast.Opts{Abbrev: false, Space: " "})
+		best, bestGroups := -1, [][]int(nil)
+		for di, d := range docs {
+			groups := map[string][]int{}
+			var order []string
+			for node := 1; node <= d.Len(); node++ {
+				b, _ := json.Marshal(freshObs(ptext, d, node))
+				k := string(b)
+				if _, ok := groups[k]; !ok {
+					order = append(order, k)
+				}
+				groups[k] = append(groups[k], node)
+			}
+			if len(order) > len(bestGroups) {
+				best, bestGroups = di, nil
+				for _, k := range order {
+					bestGroups = append(bestGroups, groups[k])
+				}
+			}
+		}
 		for si, sk := range skels {
 			for k := 0; k < *perExpr; k++ {
 				h := fnv.New64a()
 				fmt.Fprintf(h, "%d/%d/%d/%d", *seed, pi, si, k)
 				r := rand.New(rand.NewSource(int64(h.Sum64())))
-				d1 := r.Intn(len(docs))
-				ds := []*vdoc.Doc{docs[d1]}
-				cs := [][2]int{{1, 1 + r.Intn(docs[d1].Len())}}
-				// slot 2: another node of the same document, or a node of another document
-				if r.Intn(2) == 0 {
-					d2 := r.Intn(len(docs))
-					ds = append(ds, docs[d2])
-					cs = append(cs, [2]int{2, 1 + r.Intn(docs[d2].Len())})
+				var ds []*vdoc.Doc
+				var cs [][2]int
+				if (si+k)%2 == 0 && len(bestGroups) >= 2 {
+					g1 := r.Intn(len(bestGroups))
+					g2 := (g1 + 1 + r.Intn(len(bestGroups)-1)) % len(bestGroups)
+					ds = []*vdoc.Doc{docs[best]}
+					cs = [][2]int{{1, bestGroups[g1][r.Intn(len(bestGroups[g1]))]}, {1, bestGroups[g2][r.Intn(len(bestGroups[g2]))]}}
 				} else {
-					cs = append(cs, [2]int{1, 1 + r.Intn(docs[d1].Len())})
+					d1 := r.Intn(len(docs))
+					ds = []*vdoc.Doc{docs[d1]}
+					cs = [][2]int{{1, 1 + r.Intn(docs[d1].Len())}}
+					// slot 2: another node of the same document, or a node of another document
+					if r.Intn(2) == 0 {
+						d2 := r.Intn(len(docs))
+						ds = append(ds, docs[d2])
+						cs = append(cs, [2]int{2, 1 + r.Intn(docs[d2].Len())})
+					} else {
+						cs = append(cs, [2]int{1, 1 + r.Intn(docs[d1].Len())})
+					}
 				}
 				o := xast.Opts{Abbrev: r.Intn(2) == 0, Space: " "}
 				s := runSession(p.e, p.m, ds, cs, sk, o)
